@@ -373,6 +373,54 @@ pub fn runfail(f: &[&str]) -> String {
     in_child(3000, move || by_width!(w, runfail_w, &backend, level, kth, &src, &env))
 }
 
+fn runnoas_w<C: CellType>(backend: &str, level: u32, src: &str, env: &Env) -> String {
+    use std::sync::atomic::Ordering;
+    macro_rules! go {
+        ($t:ty) => {
+            match <$t>::create(src, level) {
+                Ok(ex) => {
+                    crate::alloc::MODE.store(4, Ordering::Relaxed);
+                    let none = libc::rlimit { rlim_cur: 0, rlim_max: 0 };
+                    assert_eq!(unsafe { libc::setrlimit(libc::RLIMIT_AS, &none) }, 0);
+                    exec_with(&ex, Mode::Exec, env)
+                }
+                Err(e) => format!("create-{}", err_string(&e)),
+            }
+        };
+    }
+    match backend {
+        "inplace" => go!(InplaceInterpreter<C>),
+        "ir" => go!(IrInterpreter<C>),
+        "bc" => go!(BcInterpreter<C>),
+        "jit" => go!(BaseJitCompiler<C>),
+        b => format!("ERR backend {b}"),
+    }
+}
+
+/// runnoas|backend|w|level|src-hex|env : the executor is built, then the allocator is switched to the
+/// static arena and the address-space limit of the (child) process is lowered to 0, so that every
+/// direct kernel memory request of the run (the JIT's executable mapping) is refused while the Rust
+/// allocator still works.  Runs on a thread whose stack was mapped before the limit was lowered.
+pub fn runnoas(f: &[&str]) -> String {
+    let backend = f[0].to_string();
+    let w: u32 = f[1].parse().unwrap();
+    let level: u32 = f[2].parse().unwrap();
+    let src = String::from_utf8(hex_bytes(f[3])).expect("utf8 source");
+    let env = Env::parse(f[4]);
+    in_child(5000, move || {
+        let h = std::thread::Builder::new().stack_size(16 << 20).spawn(move || {
+            catch_unwind(AssertUnwindSafe(|| by_width!(w, runnoas_w, &backend, level, &src, &env)))
+        }).expect("thread");
+        match h.join() {
+            Ok(Ok(s)) => s,
+            Ok(Err(e)) | Err(e) => {
+                let msg = if let Some(s) = e.downcast_ref::<String>() { s.clone() } else if let Some(s) = e.downcast_ref::<&str>() { s.to_string() } else { "?".into() };
+                format!("panic:{}", msg.replace('\n', " "))
+            }
+        }
+    })
+}
+
 fn rung_w<C: CellType>(backend: &str, level: u32, mode: Mode, guard: usize, src: &str, env: &Env) -> String {
     use std::sync::atomic::Ordering;
     macro_rules! go {
